@@ -722,6 +722,112 @@ def tie_jumps(ctx):
                 ctx.count(["jump", hname, wname, jump], nontrivial=False, kind=f"jump:inner:{r}:{d}")
 
 
+# ---------------------------------------------------------------------- loop `else` semantics (Python execution = oracle)
+# "accepted ⇒ takes effect as in Python": nested loops with `else` clauses and a jump at every position (outer body,
+# inner body, inner else — a `break` there leaves the OUTER loop —, outer else), a variable that only the outer
+# `else` assigns.  The program is executed by CPython for n = 0..3 (value, or UnboundLocalError); if the real compiler
+# accepts it, the lowered Hugr is run by the reference interpreter (harness/hugr_interp.py) on the same inputs.
+def loop_else_programs():
+    progs = []
+    for outer_else in (False, True):
+        for inner_kind in ("while", "for"):
+            for inner_else in (False, True):
+                for jump in ("break", "continue"):
+                    for pos in ("none", "outer-body-if", "inner-body-if", "inner-else", "inner-else-if", "outer-else-if"):
+                        if pos.startswith("inner-else") and not inner_else:
+                            continue
+                        if pos == "outer-else-if" and (not outer_else or jump == "continue"):
+                            continue   # a jump in the outer else has no loop to aim at (SyntaxError) unless wrapped
+                        if pos == "none" and jump == "continue":
+                            continue
+                        for use_z in ((False, True) if outer_else else (False,)):
+                            L = ["r = 0", "i = 0", "while i < 2:", "    i += 1", "    r = r * 10 + 1"]
+                            if pos == "outer-body-if":
+                                L += ["    if n == i:", f"        {jump}"]
+                            if inner_kind == "while":
+                                L += ["    j = 0", "    while j < 2:", "        j += 1"]
+                            else:
+                                L += ["    for j in range(1, 3):"]
+                            L += ["        r = r * 10 + 2"]
+                            if pos == "inner-body-if":
+                                L += ["        if n == j:", f"            {jump}"]
+                            if inner_else:
+                                L += ["    else:", "        r = r * 10 + 3"]
+                                if pos == "inner-else":
+                                    L += [f"        {jump}"]
+                                elif pos == "inner-else-if":
+                                    L += ["        if n == i:", f"            {jump}"]
+                            L += ["    r = r * 10 + 4"]
+                            if outer_else:
+                                L += ["else:", "    r = r * 10 + 5"]
+                                if use_z:
+                                    L += ["    z = 7"]
+                            if pos == "outer-else-if":
+                                # wrap everything in one more loop so that the jump has a target
+                                L = ["k = 0", "while k < 1:", "    k += 1"] + ["    " + l for l in L] + ["        if n == 1:", f"            {jump}"]
+                                L += ["    r = r * 10 + 6"]
+                            L += ["return r + z" if use_z else "return r"]
+                            progs.append(("/".join([f"outer_else={int(outer_else)}", inner_kind, f"inner_else={int(inner_else)}", jump, pos, f"z={int(use_z)}"]), "\n".join(L)))
+    return progs
+
+
+def _py_run(body, n):
+    env = {}
+    try:
+        exec("def f(n):\n" + _ind(body) + "\n", env)   # noqa: S102 - generated by this harness
+        return ("value", env["f"](n))
+    except UnboundLocalError:
+        return ("unbound", None)
+    except SyntaxError as e:
+        return ("pysyntax", str(e)[:40])
+
+
+def tie_loop_else(ctx):
+    import feed
+    import hugr_interp as hi
+
+    for name, body in loop_else_programs():
+        py = [_py_run(body, n) for n in range(4)]
+        if py[0][0] == "pysyntax":
+            continue
+        src = "@guppy\ndef f(n: int) -> int:\n" + _ind(body) + "\n"
+        m = feed.load(src)
+        try:
+            o, e = feed.check_outcome(m.f)
+            if o != "ok":
+                kind = "rejected" if o == "user" else "crash"
+                ctx.count(["loop-else", name], nontrivial=False, kind=f"loopelse:{kind}:{feed.err_class(e)}")
+                if kind == "crash":
+                    ctx.violation("loopelse:" + name, f"compiler crash ({feed.err_class(e)}) on\n{body}", {"name": name, "body": body})
+                continue
+            try:
+                g = feed.lower(m.f)
+            except BaseException as ex:  # noqa: BLE001
+                ctx.violation("loopelse:" + name, f"lowering crashes ({type(ex).__name__}: {str(ex)[:80]}) on\n{body}", {"name": name, "body": body})
+                continue
+            bad = None
+            for n, (pk, pv) in enumerate(py):
+                if pk == "unbound":
+                    bad = f"accepted, but for n={n} Python raises UnboundLocalError (a clause that Python skips is treated as executed)"
+                    break
+                try:
+                    res = hi.run(g.hugr, "f", [n])
+                except hi.Unsupported:
+                    continue
+                except BaseException as ex:  # noqa: BLE001
+                    bad = f"interpreter failure for n={n}: {type(ex).__name__} {str(ex)[:60]}"
+                    break
+                if res.status != "value" or res.value != pv:
+                    bad = f"for n={n} the compiled function gives {res.status}:{res.value}, Python gives {pv}"
+                    break
+            ctx.count(["loop-else", name], nontrivial=True, kind="loopelse:accepted:" + ("DIFF" if bad else "agrees"))
+            if bad:
+                ctx.violation("loopelse:" + name, f"loop `else` / jump not given Python's meaning ({name}): {bad}\n{body}",
+                              {"name": name, "body": body, "python": py, "why": bad})
+        finally:
+            feed.unload(m)
+
+
 def tie(ctx):
     import guppylang
 
@@ -775,6 +881,7 @@ def tie(ctx):
         tie_must_reject(ctx)
         tie_expr_contexts(ctx)
         tie_jumps(ctx)
+        tie_loop_else(ctx)
 
 
 def search(ctx, why):
